@@ -19,7 +19,20 @@ def io_cfg(rng, faults=True):
     return cfg
 
 
+MANY_SECS = ["m%02d" % k for k in range(40)]
+
+
 def file_entries(rng, fid, maxkeys=6, sections=True):
+    if sections and rng.chance(0.03):
+        # many sections: the section list grows past its allocation steps (8, 16, 32)
+        ents = [[None, "x", "v%d.0" % fid]] if rng.chance(0.5) else []
+        for n, s_ in enumerate(rng.subset(MANY_SECS, 7, 34)):
+            ents.append([s_, rng.pick(KEYS), "v%d.%d" % (fid, n + 1)])
+        return ents
+    return _file_entries(rng, fid, maxkeys, sections)
+
+
+def _file_entries(rng, fid, maxkeys=6, sections=True):
     """plain-profile entries with values unique per (file, key); each (section,key) once;
     group-less first, sections contiguous, every section has at least one key."""
     ents = []
@@ -49,7 +62,7 @@ def layers_of(read):
     if not read.get("name"):
         proj = None      # drop-ins only: the project takes the place of the name, layers have no project part
     if o.get("root_prefix"):
-        root = "$ROOT"
+        root = read.get("root", "$ROOT")
         if proj is not None:
             return [norm("%s/%s/%s" % (root, sub, proj)), norm("%s/run/%s" % (root, proj)), norm("%s/etc/%s" % (root, proj))]
         return [norm(root + sub), norm(root + "/run"), norm(root + "/etc")]
@@ -112,7 +125,8 @@ def option_string(read):
     o = read["opts"]
     items = []
     if o.get("root_prefix"):
-        items.append("ROOT_PREFIX=" + ("." if read.get("rel") else "$ROOT"))
+        rp = read.get("root", "$ROOT")
+        items.append("ROOT_PREFIX=" + ((rp[len("$ROOT/"):] if rp != "$ROOT" else ".") if read.get("rel") else rp))
     if o.get("parsing_dirs"):
         items.append("PARSING_DIRS=" + ":".join(dirarg(read, d) for d in o["parsing_dirs"]))
     if o.get("config_dirs"):
@@ -134,17 +148,22 @@ def model_of(world, mask_first=True):
 def gen_layered_world(rng, i, two_layer=None, want_files=True, small=False, allow_refuse=True, allow_nosuffix=True):
     """Generates a tree of DESIGN.md 5.3 plus the parameters of one layered read."""
     read = {"delim": "=", "comment": "#", "opts": {}}
+    R = "$ROOT"
+    if rng.chance(0.05):
+        # a deep tree: absolute paths of several hundred bytes (still far below PATH_MAX)
+        R = "$ROOT/" + "d" * rng.pick([100, 120, 200]) + "/" + "e" * rng.pick([60, 130, 250])
+        read["root"] = R
     shape = rng.random()
     if two_layer is None:
         two_layer = shape < 0.25
-    suffix_sp = rng.pick(["conf", ".conf", "conf", ".conf", None, ""]) if allow_nosuffix else rng.pick(["conf", ".conf"])
+    suffix_sp = rng.pick(["conf", ".conf", "conf", ".conf", None, "", "conf.in", ".cfg.local"]) if allow_nosuffix else rng.pick(["conf", ".conf", "conf.in"])
     read["suffix"] = suffix_sp
     name = rng.pick(["app", "a", "my.app"])
     read["name"] = name
     if two_layer:
         read["ep"] = "readDirs"
-        read["usr"] = rng.pick(["$ROOT/usr/etc", "$ROOT/usr/lib/p", "$ROOT/v"])
-        read["etc"] = rng.pick(["$ROOT/etc", "$ROOT/etc/p", "$ROOT/e"])
+        read["usr"] = R + rng.pick(["/usr/etc", "/usr/lib/p", "/v"])
+        read["etc"] = R + rng.pick(["/etc", "/etc/p", "/e"])
         nlayers = 2
     else:
         read["ep"] = "readConfig"
@@ -153,7 +172,7 @@ def gen_layered_world(rng, i, two_layer=None, want_files=True, small=False, allo
             # no ROOT_PREFIX, no PARSING_DIRS: vendor directory inside the sandbox, the real /run and /etc
             # hold nothing for this project name
             read["project"] = "lesim-proj-%d" % rng.randrange(1000)
-            read["usr_subdir"] = rng.pick(["$ROOT/vend", "$ROOT/usr/lib"])
+            read["usr_subdir"] = R + rng.pick(["/vend", "/usr/lib"])
             if rng.chance(0.25):
                 read["name"] = None
             nlayers = 3
@@ -168,7 +187,7 @@ def gen_layered_world(rng, i, two_layer=None, want_files=True, small=False, allo
             nlayers = 3
         else:
             nlayers = rng.pick([1, 2, 3, 3, 3, 4])
-            read["opts"]["parsing_dirs"] = ["$ROOT/%s" % d for d in rng.sample(["usr/lib/p", "run/p", "etc/p", "opt/p", "v", "e", "l3"], nlayers)]
+            read["opts"]["parsing_dirs"] = [R + "/%s" % d for d in rng.sample(["usr/lib/p", "run/p", "etc/p", "opt/p", "v", "e", "l3"], nlayers)]
             read["project"] = rng.pick(["proj", None])
             read["usr_subdir"] = rng.pick(["/usr/lib", None])
             if read["project"] is not None and rng.chance(0.15):
@@ -182,10 +201,12 @@ def gen_layered_world(rng, i, two_layer=None, want_files=True, small=False, allo
             read["opts"]["root_prefix"] = True
     if rng.chance(0.3):
         read["global_dirs"] = rng.pick([[".d"], [".conf.d", ".d"], ["/conf.d", ".d"], [".x.d"], ["/conf.d"]])
+    if rng.chance(0.15):
+        read["global_pre"] = rng.pick([[[".old.d"]], [["/x.d", ".y.d"]], [[".d"], ["/conf.d"]]])
     read["cb"] = rng.chance(0.5)
     # delimiter and comment sets of the read; tree files are rendered to match (plain profile + inert noise)
     read["delim"] = rng.pick(["=", "=", "=", ":", "= ", ":=", "=\t"])
-    read["comment"] = rng.pick(["#", "#", ";", "#;", ";#"])
+    read["comment"] = rng.pick(["#", "#", ";", "#;", ";#", ""])      # the empty set is documented to mean "#"
     if rng.chance(0.15):
         read["slash"] = True       # directory arguments with a trailing slash
     if not norm_suffix(read["suffix"]):
@@ -219,6 +240,14 @@ def gen_layered_world(rng, i, two_layer=None, want_files=True, small=False, allo
             nodes.append({"p": p, "t": "f", "entries": []})
         elif st == "devnull":
             nodes.append({"p": p, "t": "l", "to": "/dev/null"})
+    # a main file that exists for lstat() but cannot be opened (dangling symbolic link) in the highest layer
+    # that has no main file: it is no file (5.3), lower layers must be used as if it were absent
+    if not dropin_only and rng.chance(0.06):
+        for layer in reversed(layers):
+            p = norm("%s/%s%s" % (layer, eff_name, suf))
+            if layer.startswith("$ROOT") and not any(norm(n["p"]) == p for n in nodes):
+                nodes.append({"p": p, "t": "l", "to": R + "/nowhere/gone.conf"})
+                break
     # drop-in directories
     maxd = 3 if small else 6
     pool = list(NAME_POOL)
@@ -265,7 +294,7 @@ def gen_layered_world(rng, i, two_layer=None, want_files=True, small=False, allo
             n["delim"] = dch
             if rng.chance(0.5):
                 n["noise"] = rng.getrandbits(24)
-                n["cchars"] = read["comment"]
+                n["cchars"] = read["comment"] or "#"
                 if "PYTHON_STYLE=1" in read["opts"].get("extra", []):
                     n["notrail"] = True     # in python style a comment character after a value belongs to the value
     cfg = io_cfg(rng)
@@ -313,8 +342,13 @@ def read_op(read, o=0, cb=None, ep=None, init="null", in_slot=None, faults=None)
 
 def prologue_ops(read):
     ops = []
+    # earlier settings of the process-wide drop-in list that a later call replaced (or cleared again)
+    for pre in read.get("global_pre", []):
+        ops.append({"op": "setConfDirs", "dirs": pre})
     if read.get("global_dirs"):
         ops.append({"op": "setConfDirs", "dirs": read["global_dirs"]})
+    elif read.get("global_pre"):
+        ops.append({"op": "setConfDirs", "dirs": []})
     return ops
 
 
